@@ -101,6 +101,10 @@ impl<P: Protocol> GenericCloud<MockDevice, P, MockSocket, MockTimeSource> {
             final_timeout: None,
         })
     }
+    /// the node's own claims change at run time (what a re-configuration or a restart with other claims announces)
+    pub fn v_set_claims(&mut self, claims: Vec<crate::types::Range>) {
+        self.claims = claims.into_iter().collect();
+    }
     pub fn v_reconnect(&self) -> Vec<(u16, u16, Time)> {
         self.reconnect_peers.iter().map(|e| (e.tries, e.timeout, e.next)).collect()
     }
